@@ -272,9 +272,9 @@ func vfC10SegDist(c int) {
 
 // ---- distance from a line string / closed ring / polygon: minimum over every segment, index attains it ----
 
-func vfC10DistanceFrom_N(tier int) int { return 4 }
+func vfC10DistanceFrom_N(tier int) int { return 7 }
 func vfC10DistanceFrom_Label(c int) string {
-	return []string{"linestring[3]", "closed ring[3]", "polygon[2 rings]", "multipoint[3]"}[c]
+	return []string{"linestring[3]", "closed ring[3]", "polygon[2 rings]", "multipoint[3]", "polygon[3 rings: two holes]", "multipolygon[polygon with two holes, triangle]", "multilinestring[2]"}[c]
 }
 
 func vfC10DistanceFrom(c int) {
@@ -309,6 +309,35 @@ func vfC10DistanceFrom(c int) {
 			}
 		}
 		vfAssert("polygon-index-in-range", idx >= 0 && idx < 3)
+	case 4, 5, 6:
+		// several rings / members: the distance is attained on some segment and is the minimum over all of them
+		o := vfClosedRing([]orb.Point{{0, 0}, {20, 0}, {20, 20}, {0, 20}})
+		h1 := vfClosedRing([]orb.Point{{2, 2}, {2, 4}, {4, 4}, {4, 2}})
+		h2 := vfClosedRing([]orb.Point{{10, 10}, {10, 12}, {12, 12}, {12, 10}})
+		tri := vfClosedRing([]orb.Point{{30, 0}, {34, 0}, {30, 3}})
+		var g orb.Geometry
+		rings := []orb.Ring{o, h1, h2}
+		switch c {
+		case 4:
+			g = orb.Polygon{o, h1, h2}
+		case 5:
+			g = orb.MultiPolygon{{o, h1, h2}, {tri}}
+			rings = append(rings, tri)
+		default:
+			g = orb.MultiLineString{orb.LineString(h1), orb.LineString(tri)}
+			rings = []orb.Ring{h1, tri}
+		}
+		// (planar.DistanceFrom measures to the boundary, also for points inside a polygon)
+		d := DistanceFrom(g, p)
+		attained := false
+		for _, r := range rings {
+			for i := 0; i+1 < len(r); i++ {
+				ds := DistanceFromSegmentSquared(r[i], r[i+1], p)
+				vfAssert("multi-ring-distance-is-minimum-over-every-segment", d*d <= ds)
+				attained = vfOr(attained, d*d == ds)
+			}
+		}
+		vfAssert("multi-ring-distance-attained", attained)
 	case 3:
 		v := []orb.Point{{0, 0}, {4, 1}, {2, 5}}
 		d, idx := DistanceFromWithIndex(orb.MultiPoint(v), p)
